@@ -45,7 +45,7 @@ DEFAULTS = dict(
     n_links=(1, 6), roots='mixed', stack=(1, 3), kinds='mixed', orthogonal=False,
     body_offsets=True, body_rot=True, anchor_offset=True, limits=0.3, damping=0.5, armature=0.5,
     stiffness=0.3, actuators=(0, 3), geoms=('sphere', 'capsule', 'box'), geom_offsets=True,
-    collide=False, ground=False, gravity=(0.0, 0.0, -9.81), timestep=0.002, max_children=2,
+    collide=False, ground=False, gravity=(0.0, 0.0, -9.81), timestep=0.002, max_children=2, topology='random',
     limit_range=(0.3, 2.5), custom=None, elasticity=False)
 
 
@@ -56,7 +56,11 @@ def gen_model(rng, **opts):
   bodies = []          # dict(name,parent,free,pos,quat,joints,anchor,geoms)
   for i in range(n):
     # parent choice: a forest; roots have parent -1
-    if i == 0 or rng.random() < 0.25:
+    if o['topology'] == 'chain':
+      parent = i - 1
+    elif o['topology'] == 'star':
+      parent = -1 if i == 0 else 0
+    elif i == 0 or rng.random() < 0.25:
       parent = -1
     else:
       cands = [b for b in range(i) if sum(1 for x in bodies if x['parent'] == b) < o['max_children']]
